@@ -55,7 +55,7 @@ def main(argv=None):
         if args.tier == 'thorough':
             from . import bytecheck, selftest, paths as _paths
             res.stats['unroll'] = _paths.DEFAULT_UNROLL
-            res.stats['bytecode_crosscheck'] = bytecheck.crosscheck(Project(args.repo))
+            res.stats['bytecode_crosscheck'] = bytecheck.crosscheck(Project(args.repo, normalise=False))
             _paths.DEFAULT_UNROLL = 2          # the variant matrix runs at the quick-tier bound
             selftest.run(prop, args.repo, seed, res)
         if args.replay:
